@@ -11,6 +11,7 @@ import json
 import os
 import random
 import re
+import shutil
 import subprocess
 import sys
 import time
@@ -105,14 +106,42 @@ def _run(cmd: list[str], cwd: str, timeout: int) -> tuple[int, str]:
 
 
 class Lock:
+    """coq/.lock: exclusive for everything that writes shared build products (translate, make,
+    extraction); shared for steps that only READ them (re-checking a property file into a private
+    output directory), so that several checks on the same tables proceed in parallel."""
+
+    def __init__(self, shared: bool = False):
+        self.shared = shared
+
     def __enter__(self):
-        self.f = open(os.path.join(COQ, ".lock"), "w")
-        fcntl.flock(self.f, fcntl.LOCK_EX)
+        self.f = open(os.path.join(COQ, ".lock"), "a")
+        fcntl.flock(self.f, fcntl.LOCK_SH if self.shared else fcntl.LOCK_EX)
         return self
 
     def __exit__(self, *a):
         fcntl.flock(self.f, fcntl.LOCK_UN)
         self.f.close()
+
+
+def _file_sig(path: str) -> str:
+    try:
+        with open(path, "rb") as f:
+            return hashlib.sha1(f.read()).hexdigest()
+    except OSError:
+        return ""
+
+
+def _deps_fresh(deps: list[str]) -> bool:
+    """every compiled dependency exists and is not older than its source"""
+    for d in deps:
+        vo = os.path.join(COQ, d)
+        v = vo[:-1]
+        try:
+            if os.path.getmtime(vo) < os.path.getmtime(v):
+                return False
+        except OSError:
+            return False
+    return True
 
 
 def translate() -> str:
@@ -217,7 +246,40 @@ def prove(prop: str, coqchk: bool = False) -> dict:
             res["failed"] = (f"dependency {m2.group(1)} line {m2.group(2)}" if m2
                              else "dependency build")
             return res
-        rc, out = _run(["coqc", "-q", "-Q", ".", "HT", f"Properties/{prop}.v"], COQ, 900)
+        tables_sig = _file_sig(os.path.join(COQ, "Gen/Tables.v"))
+        # thorough tier: compile in place (coqchk needs Properties/<prop>.vo), all under the exclusive lock
+        rc, out = (_run(["coqc", "-q", "-Q", ".", "HT", f"Properties/{prop}.v"], COQ, 900) if coqchk else (None, ""))
+    if not coqchk:
+        # quick tier: re-check the property file under a SHARED lock into a private output directory
+        # (nothing but this run reads its compiled form), so checks on the same tables run in parallel
+        for attempt in range(4):
+            with Lock(shared=True):
+                if _file_sig(os.path.join(COQ, "Gen/Tables.v")) == tables_sig and _deps_fresh(deps):
+                    tmpd = os.path.join(COQ, ".tmp", str(os.getpid()))
+                    os.makedirs(tmpd, exist_ok=True)
+                    try:
+                        rc, out = _run(["coqc", "-q", "-Q", ".", "HT", "-noglob", "-o", os.path.join(tmpd, prop + ".vo"),
+                                        f"Properties/{prop}.v"], COQ, 900)
+                    finally:
+                        shutil.rmtree(tmpd, ignore_errors=True)
+                    break
+            # another run regenerated the tables for a different tree in between: rebuild ours
+            with Lock():
+                res["translate"] = translate()
+                rc0, out0 = make(deps) if deps else (0, "")
+                tables_sig = _file_sig(os.path.join(COQ, "Gen/Tables.v"))
+                if rc0 != 0:
+                    res["log"] = out0[-6000:]
+                    res["failed"] = "dependency build"
+                    return res
+        if rc is None:
+            # never got a quiet moment: do it the exclusive way
+            with Lock():
+                res["translate"] = translate()
+                if deps:
+                    make(deps)
+                rc, out = _run(["coqc", "-q", "-Q", ".", "HT", f"Properties/{prop}.v"], COQ, 900)
+    if True:
         res["log"] = out[-6000:]
         if rc != 0:
             m2 = re.search(r'File "\./([^"]+)", line (\d+)', out)
@@ -234,7 +296,12 @@ def prove(prop: str, coqchk: bool = False) -> dict:
             return res
         if coqchk:
             # independent re-check of the compiled property file and everything it depends on
-            rc2, out2 = _run(["coqchk", "-silent", "-o", "-Q", ".", "HT", f"HT.Properties.{prop}"], COQ, 1800)
+            with Lock():
+                translate()
+                if deps:
+                    make(deps)
+                _run(["coqc", "-q", "-Q", ".", "HT", f"Properties/{prop}.v"], COQ, 900)
+                rc2, out2 = _run(["coqchk", "-silent", "-o", "-Q", ".", "HT", f"HT.Properties.{prop}"], COQ, 1800)
             tail = out2.strip().splitlines()[-12:]
             res["coqchk"] = {"exit": rc2, "tail": tail}
             if rc2 != 0:
